@@ -22,7 +22,7 @@ class SanBuild:
 
     def flags(self):
         # the clang builds use the GNU dialect (same UB rules; __int128 operands and !__STRICT_ANSI__ code exist only there)
-        f = ['-std=gnu++17' if self.compiler == 'clang++' else '-std=c++17', self.opt, '-g', '-fno-omit-frame-pointer', '-w', f'-D{V.HOOK_DEFINE}=1', f'-I{V.LIB_INC}']
+        f = ['-std=gnu++17' if self.compiler == 'clang++' else '-std=c++17', self.opt, '-g', '-fno-omit-frame-pointer', '-w', f'-D{V.HOOK_DEFINE}=1', '-DVERIF_SINIT_LAZY=1', f'-I{V.LIB_INC}']
         if self.mode == 'report':
             f += ['-fsanitize=address,undefined,float-cast-overflow', '-fsanitize-recover=address,undefined,float-cast-overflow']
         else:
@@ -666,7 +666,7 @@ def build_fuzz():
     exe = os.path.join(d, f'fuzz-{hk[:16]}')
     if os.path.exists(exe):
         return exe
-    libflags = ['-std=c++17', '-O1', '-g', '-w', f'-D{V.HOOK_DEFINE}=1', f'-I{V.LIB_INC}', '-DVERIF_CFG="clang-fuzz-asan-ubsan"',
+    libflags = ['-std=c++17', '-O1', '-g', '-w', f'-D{V.HOOK_DEFINE}=1', '-DVERIF_SINIT_LAZY=1', f'-I{V.LIB_INC}', '-DVERIF_CFG="clang-fuzz-asan-ubsan"',
                 '-fsanitize=fuzzer-no-link,address,undefined,float-cast-overflow', '-fno-sanitize=object-size', '-fno-sanitize-recover=undefined,float-cast-overflow']
 
     def comp(job):
@@ -713,6 +713,16 @@ def fuzz_arm(prop, tier, seed, cov, violations, inconcl, notes, arms_used):
     os.makedirs(os.path.join(wd, 'empty'))
     r0 = subprocess.run([exe, '-runs=0', os.path.join(wd, 'empty')], capture_output=True, text=True, env=dict(env, VERIF_FUZZ_SEEDDIR=os.path.join(wd, 'seeds')))
     if r0.returncode != 0:
+        summ = re.search(r'SUMMARY: (.*)', r0.stderr)
+        if prop in ('C07', 'C19') and summ and ('Sanitizer' in summ.group(1)):
+            # a sanitizer report before any input was executed: the wrappers' static initialiser calls the compiled table
+            # functions (C19's functions; not returning normally is C07's subject)
+            site = re.sub(r':\d+:\d+', '', re.sub(r'0x[0-9a-f]+', '', summ.group(1))).strip()[:160]
+            violations.append({'key': f'fuzz/{prop}/sanitizer-report-during-static-initialisation/{site}', 'count': 1, 'per_cfg': {'clang-fuzz-asan-ubsan': 1},
+                               'witnesses': [{'stderr': r0.stderr[-1500:]}], 'arm': 'fuzz'})
+            cov['fuzz'] = {'target': 'clang++ -O1 -fsanitize=fuzzer,address,undefined', 'executed_inputs': 0, 'note': 'the target aborted during static initialisation'}
+            shutil.rmtree(wd, ignore_errors=True)
+            return
         raise V.Inconclusive('fuzz target failed to start: ' + r0.stderr[-800:])
 
     def worker(i):
